@@ -345,6 +345,29 @@ func (sr *syncRig) headersMsg(ids []int) *wire.MsgHeaders {
 
 // settle crosses every barrier: node -> service peer reader -> sync manager -> server peer handler -> back.
 func (sr *syncRig) settle() {
+	// a connection that went down is reported by the server's peerDoneHandler goroutine: first to the server, later to the
+	// sync manager.  No barrier message can overtake that goroutine, so the books themselves are watched: the server and
+	// the manager must both count exactly the nodes that are still connected before the step counts as finished.
+	live := 0
+	for _, n := range sr.nodes {
+		if !n.isClosed() {
+			live++
+		}
+	}
+	deadline := time.Now().Add(10 * time.Second)
+	for int(sr.srv.ConnectedCount()) != live || len(sr.stack.Peers) != live {
+		if time.Now().After(deadline) {
+			shaky = true
+			break
+		}
+		time.Sleep(200 * time.Microsecond)
+		live = 0
+		for _, n := range sr.nodes {
+			if !n.isClosed() {
+				live++
+			}
+		}
+	}
 	for round := 0; round < 2; round++ {
 		for _, n := range sr.nodes {
 			sr.nonce++
